@@ -380,7 +380,7 @@ func GroupByIWithContext[T any, K comparable](iteratee func(ctx context.Context,
 
 			return func() {
 				sub.Unsubscribe()
-				notifyAll(func(o Observer[T]) { o.CompleteWithContext(context.TODO()) })
+				notifyAll(func(o Observer[T]) { o.CompleteWithContext(subscriberCtx) })
 
 				groups = sync.Map{}
 			}
